@@ -70,7 +70,16 @@ def make_hid_world(driver, kinds, exc_on, limit, ret, nloss=1, tail=0, start_seq
         cmds = [build_cmd(kd, i + 1) for i, kd in enumerate(kinds)]
         table = {(16, c.frame.as_integer): ("value", 0x20 + i) for i, c in enumerate(cmds) if c.response is not None}
 
+        dtframes = {(16, c.frame.as_integer): c.devicetype for c in cmds if getattr(c, "devicetype", 0)}
+
         def bus(bits, value, idx):
+            if (bits, value) in dtframes:
+                # control gear obeys an application-extended command only when the frame directly before it on the bus - since
+                # the gateway was (re)opened - is the matching ENABLE DEVICE TYPE
+                gw = w.gateway
+                prev = gw.wire[idx - 1] if idx - 1 >= gw.epoch and idx >= 1 else None
+                if prev is None or tuple(prev[:2]) != (16, 0xC100 | dtframes[(bits, value)]):
+                    return ("none",)
             if (bits, value) in table:
                 return table[(bits, value)]
             if bits == 16 and (value & 0x1FF) == 0x1A0:
